@@ -2,29 +2,27 @@
 
 // Contracts for gvc (/verif). Comment-only: this file adds no declarations.
 
-package str
-
-// C17 sweep: str: builtins never panic, whatever their arguments.
-//@ func repeat
-//@   props C17
+package re
 
 // C17 sweep: zero-annotation panic-freedom obligations for the module's functions,
 // for every argument value.
-//@ func fromCodepoints
+//@ func matchOpts.SetDefaultOptions
 //@   props C17
-//@ func hex
+//@ func match
 //@   props C17
-//@ func fromUtf8Bytes
+//@ func findOpts.SetDefaultOptions
 //@   props C17
-//@ func join
-//@   props C17
-//@ func maxOpt.SetDefaultOptions
+//@ func replaceOpts.SetDefaultOptions
 //@   props C17
 //@ func replace
 //@   props C17
 //@ func split
 //@   props C17
-//@ func toCodepoints
+//@ func awkOpt.SetDefaultOptions
 //@   props C17
-//@ func toUtf8Bytes
+//@ func awk
+//@   props C17
+//@ func makePattern
+//@   props C17
+//@ func compile
 //@   props C17
